@@ -181,6 +181,7 @@ def main(tier):
     for site, blk in sorted(sites.items()):
         vd.violation('lsan:leak:%s:libavoid' % site, 'libavoid leaks memory allocated in %s: %s' % (site, blk[:500].replace('\n', ' | ')), {'library': 'libavoid', 'report': blk})
     ev.cov['executions'] = len(execs)
+    ev.cov['executions_cut_where_the_history_would_use_an_object_the_library_reported_deleted'] = sum(1 for ex in execs if ex['end'] and ex['end'].get('truncated'))
     ev.cov['executions_completed'] = len(good)
     # ---- B2: complete executions against the protocol
     tf = os.path.join(d, 'life.ndjson')
